@@ -54,6 +54,10 @@ func All() map[string]orch.PropertySpec {
 		"C20": {ID: "C20", Level: "model_checking", Assumptions: trusted,
 			Rule: "every accepted case of the Genuine family (all layouts, raw and DEFLATE) and of the Forgery family (attacker-shaped roots, ID collisions, lifted signatures) is pre-decoded with DecodeUnverifiedBaseResponse and the five fields compared with the validated result",
 			Parts: []orch.Part{{Family: fam.Genuine{}, Monitors: []string{"C20"}}, {Family: fam.Forgery{}, Monitors: []string{"C20"}}}},
+		"C09": {ID: "C09", Level: "exploration", Assumptions: append([]string{"'for every byte string' is explored, not enumerated: TLC supplies the classes and positions, the driver the octets"}, trusted...),
+			Rule: "cases: (a) spec/Garbage.tla classes x 8 entry points (6 decoders + DecryptBytes + Decrypt) x normal / bare SP (empty store, no keys, no clock): 19 base-independent classes (bad base64, bad DEFLATE, non-XML, no root, wrong root, DOCTYPE entities, invalid UTF-8, undeclared prefixes, colon names, deep nesting, wide tree, many attributes, huge text, xmlns abuse ...), 7 positional damage classes at 7 (quick) / 25 (thorough) positions of 4 genuine messages, 18 structural damages of Signature / EncryptedData; (b) truncation and bit flip at every 11th (quick) / every (thorough) offset of each genuine message on its own entry points; (c) the ciphertext-shape sub-space of spec/Xmlenc.tla reached through an unsigned Response; (d) every case of the Forgery, Trust, Profile, Time and Logout families; distinct = distinct abstract (cfg,input); non-trivial = the input reaches the routine under test (DecryptBytes cases whose octets do not decode into an EncryptedAssertion are trivial)",
+			Parts: []orch.Part{{Family: fam.Garbage{}, Monitors: []string{"C09"}}, {Family: fam.Xmlenc{}, Monitors: []string{"C09"}}, {Family: fam.Forgery{}, Monitors: []string{"C09"}}, {Family: fam.Logout{}, Monitors: []string{"C09"}}, {Family: fam.Time{}, Monitors: []string{"C09"}}},
+		},
 	}
 }
 
